@@ -15,8 +15,7 @@ import re
 import featlib
 from featlib import Check, render, walk, children
 import ikinds
-from ikinds import (Contracts, FnKinds, FunctionIndex, Lin, Rng, Top, strip, _subscript)
-from checks.c19 import coverage, frames_key
+from ikinds import (Contracts, FnKinds, FunctionIndex, Lin, Rng, Top, strip, _subscript, coverage, frames_key)
 
 GEO = featlib.repo_path("kernel/geometry/")
 FILES = GEO + r"(patch_|parti_|mesh_node|intern/patch_index)|" + featlib.repo_path("kernel/adjacency/graph.hpp")
@@ -547,11 +546,11 @@ def run(tier):
     ck = Check("C12", tier)
     ck.rule("E1.member-binding", "the halo builders are wired to the right sets: PatchHaloBuild<Shape,codim> binds the patch part's target set of the face dimension and the "
             "transposed base index set <shape_dim, face_dim>; wrapper/factory pass (target sets of the patch part, index sets of the base mesh) "
-            "(a wrong dimension/holder compiles and only shows with more than one patch)", 7)
+            "(a wrong dimension/holder compiles and only shows with more than one patch)", 9)
     ck.rule("E2.patch-kinds", "index spaces are not confused: target sets are subscripted by patch entity indices and yield base entity indices, adjacency lookups "
             "(elements-at-face, ranks-at-element, index sets, inverse maps, base vertex sets) take base-mesh indices, rank graphs are entered by element; "
             "kinds from accessor contracts, equalities only from XASSERTs, constructions and the documented parameter roles "
-            "(breaks as soon as a patch is a proper subset of the base mesh)", 25)
+            "(breaks as soon as a patch is a proper subset of the base mesh)", 45)
     ck.rule("E2.graph-algebra", "RootMeshNode::extract_patch: every composite render Graph(a,b) has Img(a) = Dom(b) under the kinds E>R := (R>E)^T, V>E := (E>V)^T, V>R, R>V, R>R, "
             "and PatchHaloFactory receives a graph with one node per base-mesh element (operands swapped / forgotten transpose pass when #ranks = #elements = #vertices is small)", 3)
     ck.rule("E2.monotone-push", "halo index lists (PatchHaloBuild::_indices, the halo index list of PatchInvMap::split that PatchHaloSplitPart::intersect merges) are filled by a single "
